@@ -168,9 +168,11 @@ def run_check(tier, seed):
     ev.cov['replies_24_byte_form_checked'] = n24
     if n24 < 9: broken.append({'kind': 'coverage', 'name': 'INIT cases with 5 <= minor < 23 evaluated by the specification', 'n': n24})
     ev.cov['spec_evaluations'] = len(exprs); ev.cov['model_vs_impl_disagreements'] = len(bad_idx); ev.cov['toggle_cases'] = tn
-    ev.cov['rule'] = ('INIT requests over (major in {<7,7,>7}, minor incl. 0,4,5,22,23,35,36,38, flags single bits and random, INIT_EXT with/without the 48-byte tail, flags2 single bits and random) '
+    ev.cov['rule'] = ('deterministic INIT blocks (minor {0,4,5,12,22,23,35,36,40} x {marker, no marker} x tail {none, 48, 47, 60 bytes}; every capability bit offered alone and wanted alone; '
+                      'major mismatch x form; refused init; earlier INIT with an old minor; three transports rotating; metrics hook on every third) then random '
+                      'INIT requests over (major in {<7,7,>7}, minor incl. 0,4,5,22,23,35,36,38, flags single bits and random, INIT_EXT with/without the 48-byte tail, flags2 single bits and random) '
                       'x filesystem want sets (random 64-bit, all, none, single extended bits) x reply capacities; reply parsed by Spec/Init.v as the kernel does; plus Vfs/passthrough/overlay init '
-                      'under every configuration switch combination followed by open/opendir probes; distinct_nontrivial = distinct (major=7?, minor, ext?, payload?, result kind, want has extended bits?, transport) + distinct toggle configurations')
+                      'under every configuration switch combination, two request orders, late mount, failing backend, dax thresholds, followed by open/opendir probes and their twins (release, releasedir, create, setattr, async open); distinct_nontrivial = distinct (major=7?, minor, ext?, payload?, result kind, want has extended bits?, transport) + distinct toggle configurations')
     ev.cov['input_distribution'] = {'/'.join(k): v for k, v in sorted(hist.items(), key=lambda kv: -kv[1])[:30]}
     ev.cov['samples'] = [S.case_json(c, obs.get(c['id'])) for c in cases[:2]] + tsamples[:2]
     return finish(ev, PROP, findings, broken)
